@@ -1,6 +1,7 @@
 import XV.Props.C04
 import XV.Props.C05
 import XV.Props.C03
+import XV.Lemmas.CrashHistory
 /-!
 C06 — crash consistency at every storage-write boundary.
 
@@ -13,6 +14,38 @@ persisted pointer stays resolvable whatever later confirmation was written or lo
 (2) the pool record of a transaction and its effects are written together (`pool_record_with_effects`);
 (3) the intermediate states of a walk are block boundaries (C05 `undo_refusal_is_block_boundary`,
 `todoBlock_all_or_nothing`), so a crash inside a walk leaves a state at some block with an empty pool.
+
+THE CRASH MODEL (second half of this file; definitions in `XV/Model/Crash.lean`, lemmas in `XV/Lemmas/Crash*.lean`).
+`walkTrace e s lh dest prune` is the state after each atomic batch of `walk`; `Node` = ledger DB + state DB, `Op` the
+operations, `opTrace` the node after each batch of one operation, `crashStates e n ops` every node a history can
+leave behind when the process dies after any batch, `recover` the restart (miner loop: walk the state to the ledger
+tip unless it is there already). Proved for ALL histories and ALL crash points (inductions over the operation list
+and over the trace, no enumeration):
+  (a) `crash_state_at_block_boundary`, `crash_state_invariants`, `crash_history_invariants`;
+  (b) `crash_ledger_invariant`;
+  (c) `walk_resume`, `crash_recovery_confluent`, `crash_recovery_canonical`;
+  (d) `crash_irrev_along_walk`, `crash_irrev_monotone`.
+What is taken as hypothesis and not proved here: that the nodes of the UNINTERRUPTED run satisfy the C01 / C02
+invariants between operations (`History.sinv`, `History.led`) — C01 / C02 prove this operation by operation under
+their side conditions, except `play` on a non-empty pool and `playForMiner` against the canonical state (open in C01).
+
+CORRESPONDENCE A GO HARNESS SHOULD CHECK (to tie `walkTrace` to the code as `walk` itself is tied; not yet a driver
+operation, the line-protocol driver is frozen). Log the write groups of the state DB during one `State.Walk(dest,
+prune)` started from a state the model agrees with, `lh` = ledger trunk height, `T = walkTrace e s lh dest prune`:
+  * write group 0 (RollBackUnconfirmedTx, possibly an empty batch when the pool is empty — then `T[0]` has the
+    tables of `s`): afterwards tables U / ZU / ZD / M(total, pointer, irrev) / N(pool) = `T[0]`, pool empty;
+  * write group k, 1 ≤ k ≤ u, u = number of undone blocks (procUndoBlkForWalk, one batch per block, newest first):
+    afterwards = `T[k]`, pointer = parent of the k-th block of `FindUndoAndTodoBlocks`' undo list;
+  * write group u + j, 1 ≤ j ≤ t (procTodoBlkForWalk, one batch per block, oldest first): afterwards = `T[u + j]`,
+    pointer = j-th todo block;
+  * then one write group per re-admitted pending transaction (recoverUnconfirmedTx → doTxSync; a refused one writes
+    nothing): afterwards = the next element of `T`;
+  * the number of write groups equals `T.length` (minus one if the empty roll-back batch is not issued), also when
+    the walk fails: the failing step writes nothing and `T` ends there (`walkTrace_of_failure`);
+  * opening ledger + state on the image after any of these groups and calling `Walk(ledger tip, false)` gives
+    `recover` of the corresponding node (`crash_recovery_confluent`).
+Comparison as for every other operation: raw tables row by row (U, ZU), key versions through the reader (ZD is
+compared observationally: C01 `undo_apply_ZD_refuted`), total, pointer, irreversible height, pool as a set.
 -/
 namespace XV.C06
 open XV.Chain (lookup put del lookup_put lookup_del)
@@ -107,5 +140,208 @@ theorem pool_record_with_effects (e : XV.Chain.Env) (s : XV.Chain.St) (lh : Int)
   rw [hs]
   simp only
   exact ⟨by simp, XV.C03.consume s (e.tx i) hself⟩
+
+end XV.C06
+
+-- ====================================================================================================================
+--                                            THE CRASH MODEL
+-- ====================================================================================================================
+
+namespace XV.C06
+open XV.Chain XV.Crash XV.C01 XV.C02
+
+-- example environment (the tree of C01's `wkEnv`, one block longer, with a second genesis output):
+--   blocks 2 and 3 are children of block 1, block 4 is a child of 3; block 2 = award 20 + transfer 21 (creates key "k",
+--   pays a fee), block 3 = award 30 + transfer 31 (spends the same output as 21, creates key "j"), block 4 = award 40 +
+--   transfer 41 (spends an output of 31, deletes "j"); pending: 22 (spends an output of 21, overwrites "k": only valid on
+--   block 2) and 23 (spends the second genesis output: valid on every branch). Slide window 1.
+private def cEnv : Env := {
+  window := 1,
+  txs := [
+    (20, ⟨20, true, [], [⟨"m2", 10, 0⟩], [], []⟩),
+    (21, ⟨21, false, [⟨0, 0, "u0", 5, 0, false⟩], [⟨"u1", 4, 0⟩, ⟨"$", 1, 0⟩], [⟨"k", none⟩], [⟨"k", "a", false⟩]⟩),
+    (22, ⟨22, false, [⟨21, 0, "u1", 4, 0, false⟩], [⟨"u2", 4, 0⟩], [⟨"k", some (21, 0)⟩], [⟨"k", "b", false⟩]⟩),
+    (23, ⟨23, false, [⟨0, 1, "u9", 3, 0, false⟩], [⟨"u8", 2, 0⟩, ⟨"$", 1, 0⟩], [], []⟩),
+    (30, ⟨30, true, [], [⟨"m3", 10, 0⟩], [], []⟩),
+    (31, ⟨31, false, [⟨0, 0, "u0", 5, 0, false⟩], [⟨"u3", 5, 0⟩], [⟨"j", none⟩], [⟨"j", "c", false⟩]⟩),
+    (40, ⟨40, true, [], [⟨"m4", 10, 0⟩], [], []⟩),
+    (41, ⟨41, false, [⟨31, 0, "u3", 5, 0, false⟩], [⟨"u4", 5, 0⟩], [⟨"j", some (31, 0)⟩], [⟨"j", "", true⟩]⟩)],
+  blocks := [(1, ⟨1, none, 0, [], "m1"⟩), (2, ⟨2, some 1, 1, [20, 21], "m2"⟩), (3, ⟨3, some 1, 1, [30, 31], "m3"⟩),
+    (4, ⟨4, some 3, 2, [40, 41], "m4"⟩)] }
+/-- the base state below the root block -/
+private def cG : St := { U := [((0, 0), ⟨"u0", 5, 0⟩), ((0, 1), ⟨"u9", 3, 0⟩)], total := 8 }
+/-- the node at the root block -/
+private def cN : Node := { l := XV.Ledger.genesis 1 [], s := canon cEnv cG 1 }
+/-- the history: block 2 confirmed and played, two submissions, the sibling 3 confirmed (side branch), its child 4
+confirmed (the trunk switches), the state walked across the fork to the new tip -/
+private def cOps : List Op := [.confirm 2, .play 2, .submit 22, .submit 23, .confirm 3, .confirm 4, .walk 4 false]
+/-- the node just before the walk: ledger tip 4, state at block 2 with pool [22, 23] -/
+private def cM : Node := run cEnv cN (cOps.take 6)
+/-- same rows in two association lists (lookup by lookup over the keys of both) -/
+private def rowsEq {κ ν : Type} [DecidableEq κ] [DecidableEq ν] (a b : List (κ × ν)) : Bool :=
+  (a.map (·.1) ++ b.map (·.1)).all (fun k => lookup a k == lookup b k)
+
+-- ------------------------------------------------------------------ 1. the trace of a walk
+
+/-- the trace is the block-boundary part followed by the re-admission part -/
+theorem walkTrace_split (e : Env) (s : St) (lh : Int) (dest : Nat) (prune : Bool) :
+    walkTrace e s lh dest prune = walkMid e s lh dest prune ++ walkRepost e s lh dest prune := rfl
+
+/-- **the last element of `walkTrace` is the state `walk` returns** — when the walk succeeds and when it stops at a
+failing step alike (then the last element is the state after the last completed batch: the failing step wrote nothing) -/
+theorem walkTrace_last (e : Env) (s : St) (lh : Int) (dest : Nat) (prune : Bool) :
+    (walkTrace e s lh dest prune).getLast? = some (walk e s lh dest prune).1 :=
+  walkTrace_getLast e s lh dest prune
+
+/-- **the trace of a failing walk**: no re-admission batch is written; the trace is its block-boundary part — the
+roll-back batch, the undo batches up to the refused block or all of them, and the apply batches up to the failing
+block — and the pool stays rolled back -/
+theorem walkTrace_of_failure (e : Env) (s : St) (lh : Int) (dest : Nat) (prune : Bool)
+    (hf : (walk e s lh dest prune).2 = false) :
+    walkTrace e s lh dest prune = walkMid e s lh dest prune ∧ (walk e s lh dest prune).1.pool = [] := by
+  rw [walk_ok_iff_core] at hf
+  constructor
+  · rw [walkTrace_split]
+    have : walkRepost e s lh dest prune = [] := by
+      cases hr : walkRepost e s lh dest prune with
+      | nil => rfl
+      | cons a r =>
+        have := (mem_walkRepost e s lh dest prune a (by rw [hr]; exact List.mem_cons_self)).1
+        rw [hf] at this; cases this
+    rw [this, List.append_nil]
+  · rw [walk_eq_core, hf]
+    simp only [Bool.false_eq_true, ↓reduceIte]
+    -- the state before the re-admissions is an element of the block-boundary part: pool empty
+    have hm := walkCore_mem_walkMid e s lh dest prune
+    rcases mem_walkMid e s lh dest prune _ hm with h | ⟨A, B, _, _, hrun⟩ | ⟨s1, A, B, hund, _, _, hrun⟩
+    · rw [h]; rfl
+    · have := undoAll_pool e prune A (rolledBack e s)
+      rw [hrun] at this
+      exact this
+    · have h1 := undoAll_pool e prune (undoTodo e s.pointer dest).1 (rolledBack e s)
+      rw [hund] at h1
+      rw [todoAll_pool e lh A s1 _ hrun, h1]
+      rfl
+
+/-- every operation but `walk` is one batch; the last element of the trace of an operation is the node after it -/
+theorem opTrace_last (e : Env) (n : Node) (op : Op) :
+    (opTrace e n op).getLast? = some (runOp e n op) ∧
+    ((∀ dest prune, op ≠ .walk dest prune) → opTrace e n op = [runOp e n op]) := by
+  refine ⟨opTrace_getLast e n op, fun h => ?_⟩
+  cases op with
+  | walk dest prune => exact absurd rfl (h dest prune)
+  | submit i => rfl
+  | confirm b => rfl
+  | play b => rfl
+  | playMiner b => rfl
+  | truncate d => rfl
+
+/-- **what a crash state is** (prefix closure of the write groups of a history): the node of the uninterrupted run
+after some prefix of the operations, or — during a walk — the ledger of that node with an element of the trace of the
+walk; and all of these are crash states -/
+theorem crashStates_spec (e : Env) (n : Node) (ops : List Op) (x : Node) :
+    x ∈ crashStates e n ops ↔
+      ∃ k, k ≤ ops.length ∧ (x = run e n (ops.take k) ∨
+        ∃ dest prune s', ops[k]? = some (.walk dest prune) ∧
+          s' ∈ walkTrace e (run e n (ops.take k)).s (lh (run e n (ops.take k))) dest prune ∧
+          x = (run e n (ops.take k)).withState s') := by
+  constructor
+  · intro hx
+    obtain ⟨k, hk, h | ⟨dest, prune, hop, hl, hs⟩⟩ := mem_crashStates e ops n x hx
+    · exact ⟨k, hk, Or.inl h⟩
+    · refine ⟨k, hk, Or.inr ⟨dest, prune, x.s, hop, hs, ?_⟩⟩
+      cases x
+      simp only at hl
+      subst hl
+      rfl
+  · rintro ⟨k, _, h | ⟨dest, prune, s', hop, hs, h⟩⟩
+    · rw [h]; exact run_take_mem_crashStates e ops n k
+    · rw [h]; exact walkTrace_mem_crashStates e ops n k dest prune hop s' hs
+
+-- the trace of the walk across the fork: roll-back (at 2), block 2 undone (at 1), blocks 3 and 4 applied, 23 re-admitted
+-- (22 is not: its input went with block 2); the last element is what `walk` returns
+example : (walkTrace cEnv cM.s (lh cM) 4 false).map (fun x => (x.pointer, x.pool, x.total)) =
+      [(2, [], 18), (1, [], 8), (3, [], 18), (4, [], 28), (4, [23], 28)] ∧
+    cM.s.pool = [22, 23] ∧ cM.l.tip = 4 ∧ (walk cEnv cM.s (lh cM) 4 false).2 = true ∧
+    (walk cEnv cM.s (lh cM) 4 false).1.pool = [23] ∧ (walk cEnv cM.s (lh cM) 4 false).1.pointer = 4 := by decide
+-- the crash states of the history: 19 nodes (with repetitions), as (ledger tip, state pointer, pool)
+example : (crashStates cEnv cN cOps).map (fun x => (x.l.tip, x.s.pointer, x.s.pool)) =
+    [(1, 1, []), (2, 1, []), (2, 1, []), (2, 2, []), (2, 2, []), (2, 2, [22]), (2, 2, [22]), (2, 2, [22, 23]),
+     (2, 2, [22, 23]), (2, 2, [22, 23]), (2, 2, [22, 23]), (4, 2, [22, 23]), (4, 2, [22, 23]),
+     (4, 2, []), (4, 1, []), (4, 3, []), (4, 4, []), (4, 4, [23]), (4, 4, [23])] := by decide
+-- a failing walk: from block 2 with irreversible height forced to 1, the undo of block 2 (height 1) is refused:
+-- the trace is the roll-back batch alone
+example : (walkTrace cEnv { cM.s with irrev := 1 } (lh cM) 4 false).map (fun x => (x.pointer, x.pool)) = [(2, [])] ∧
+    (walk cEnv { cM.s with irrev := 1 } (lh cM) 4 false).2 = false := by decide
+
+-- ------------------------------------------------------------------ 2 (a). crash states are at block boundaries
+
+/-- **(a) every state a crash inside a walk can leave behind — after the roll-back batch, after any undone block,
+after any applied block — is at a block boundary**: its pool is empty, its tables are those of the canonical state
+(`canon`, C01: the replay of the chain from the base state) of the block its pointer names, and that block lies on
+the branch of the old tip or on the branch of the destination. Hypotheses: those of C01 `walk_canonical` for the
+state the walk starts from, and `WalkTree` (parent links go down in height, the two branches share an ancestor, the
+blocks to apply and the destination are known under their ids). -/
+theorem crash_state_at_block_boundary (e : Env) (s : St) (lh : Int) (dest : Nat) (prune : Bool) (g : St)
+    (W : WalkTree e s.pointer dest) (hinv : KVInv e g)
+    (hchain : ChainValid e (ancestors e (e.blocks.length + 1) s.pointer).reverse g)
+    (hpool : PoolValid e s.pool (canon e g s.pointer))
+    (hs : TRefines s (applyPool e s.pool (canon e g s.pointer)))
+    (x : St) (hx : x ∈ walkMid e s lh dest prune) :
+    x.pool = [] ∧ TRefines x (canon e g x.pointer) ∧
+    (x.pointer ∈ ancestors e (e.blocks.length + 1) s.pointer ∨ x.pointer ∈ ancestors e (e.blocks.length + 1) dest) := by
+  obtain ⟨h1, h2⟩ := walkMid_boundary e s lh dest prune g W hinv hchain hpool hs x hx
+  exact ⟨h1, h2, walkMid_pointer_mem e s lh dest prune W x hx⟩
+
+-- the four block-boundary states of the walk across the fork: pool empty, every row / key version / total as in the
+-- canonical state of the block the pointer names (compared row by row; the lists may be ordered differently)
+example : ∀ x ∈ walkMid cEnv cM.s (lh cM) 4 false, x.pool = [] ∧
+    rowsEq x.U (canon cEnv cG x.pointer).U = true ∧ rowsEq x.ZU (canon cEnv cG x.pointer).ZU = true ∧
+    rowsEq x.ZD (canon cEnv cG x.pointer).ZD = true ∧ x.total = (canon cEnv cG x.pointer).total := by decide
+example : ParentLower cEnv := parentLower_of_blocks _ (by decide)
+example : (∃ c, c ∈ ancestors cEnv (cEnv.blocks.length + 1) cM.s.pointer ∧ c ∈ ancestors cEnv (cEnv.blocks.length + 1) 4) ∧
+    (∀ bi ∈ (undoTodo cEnv cM.s.pointer 4).2, (cEnv.block bi).id = bi) ∧ (cEnv.block 4).id = 4 :=
+  ⟨⟨1, by decide, by decide⟩, by decide, by decide⟩
+
+/-- **every state a crash inside a walk can leave behind satisfies the state invariants**: the C01 invariant `SInv`
+(tables = canonical state of the pointer's block + the pool applied in admission order) and the C02 reachable-state
+invariant `Ledger e x C'` for a suitable ghost log, hence `PoolInv`: one row per key, conservation
+`Σ U + pending fees = total`, and every input of every pending transaction is spent — the pool contains only
+transactions whose effects are present. Hypotheses: those of `crash_state_at_block_boundary`, those of C02
+`walk_Ledger` (which is this statement for the last element alone), and `hfinal` (see `walkTrace_SInv`). -/
+theorem crash_state_invariants (e : Env) (s : St) (lh : Int) (dest : Nat) (prune : Bool) (g : St) (C C0 : List Nat)
+    (W : WalkTree e s.pointer dest) (hinv : KVInv e g)
+    (hchain : ChainValid e (ancestors e (e.blocks.length + 1) s.pointer).reverse g)
+    (hs : SInv e g s)
+    (hfinal : (walk e s lh dest prune).2 = true → PoolValid e (walk e s lh dest prune).1.pool (canon e g dest))
+    (h : Ledger e s C)
+    (hundo : C = C0 ++ blockTxs e (undoTodo e s.pointer dest).1.reverse)
+    (hnd : (C0 ++ blockTxs e (undoTodo e s.pointer dest).2).Nodup)
+    (hblk : ∀ bi ∈ (undoTodo e s.pointer dest).2, (∀ i ∈ (e.block bi).txs, (e.tx i).id = i) ∧
+      (∀ i ∈ (e.block bi).txs, (e.tx i).coinbase = true → (e.tx i).ins = [] ∧ feeOf (e.tx i).outs = 0))
+    (hre : ∀ i ∈ s.pool, i ∈ C0 ++ blockTxs e (undoTodo e s.pointer dest).2 → (e.tx i).ins ≠ [])
+    (x : St) (hx : x ∈ walkTrace e s lh dest prune) :
+    SInv e g x ∧ (∃ C', Ledger e x C') ∧ PoolInv e x ∧
+    (∀ i ∈ x.pool, ∀ r ∈ (e.tx i).ins, lookup x.U (r.tx, r.off) = none) := by
+  obtain ⟨C', hC'⟩ := walkTrace_Ledger e s lh dest prune C C0 h hundo hnd hblk hre x hx
+  exact ⟨walkTrace_SInv e s lh dest prune g W hinv hchain hs hfinal x hx, ⟨C', hC'⟩, hC'.toPoolInv,
+    hC'.toPoolInv.insSpent⟩
+
+/-- **every crash state of every history satisfies the state invariants** (`History`: what is assumed of the
+uninterrupted run and of the walks of the history) -/
+theorem crash_history_invariants (e : Env) (g : St) (n : Node) (ops : List Op) (H : History e g n ops)
+    (x : Node) (hx : x ∈ crashStates e n ops) :
+    SInv e g x.s ∧ (∃ C, Ledger e x.s C) ∧ PoolInv e x.s ∧
+    (∀ i ∈ x.s.pool, ∀ r ∈ (e.tx i).ins, lookup x.s.U (r.tx, r.off) = none) := by
+  obtain ⟨C, hC⟩ := history_Ledger e g n ops H x hx
+  exact ⟨history_SInv e g n ops H x hx, ⟨C, hC⟩, hC.toPoolInv, hC.toPoolInv.insSpent⟩
+
+-- every crash state of the example history: conservation, pool without duplicates, every pending input spent, and the
+-- tables are those of the canonical state of the pointer's block with the pool applied
+example : ∀ x ∈ crashStates cEnv cN cOps,
+    sumU x.s.U + poolFees cEnv x.s.pool = x.s.total ∧ x.s.pool.Nodup ∧
+    (∀ i ∈ x.s.pool, ∀ r ∈ (cEnv.tx i).ins, lookup x.s.U (r.tx, r.off) = none) ∧
+    rowsEq x.s.U (applyPool cEnv x.s.pool (canon cEnv cG x.s.pointer)).U = true ∧
+    rowsEq x.s.ZU (applyPool cEnv x.s.pool (canon cEnv cG x.s.pointer)).ZU = true := by decide
 
 end XV.C06
